@@ -9,7 +9,7 @@ PRELUDE = r'''
 ''' + ISWS_STUB + r'''
 /* ghost: the NUL-terminated input string (any length up to XV_MAXLEN) */
 const XalanDOMChar* g_str;
-size_t g_n;
+size_t g_n; size_t g_cw;   /* g_cw: arbitrary witness position for "only digits were skipped" */
 #define XV_MAXLEN 1000000000
 #define SOFF(p) ((size_t)__CPROVER_POINTER_OFFSET(p) / 2)
 #define IN_STR(p) (__CPROVER_same_object((p), g_str) && __CPROVER_POINTER_OFFSET(p) % 2 == 0 && SOFF(p) <= g_n)
@@ -35,6 +35,13 @@ __CPROVER_ensures(/* consumeWhitespace makes progress on whitespace */ XV_IS_WS(
 CN_CONTRACT = CURSOR_REQ + r'''
 __CPROVER_ensures(/* consumeNumbers stops at the first non-digit unit */ !IS_DIGIT(**theString))
 __CPROVER_ensures(/* consumeNumbers makes progress on a digit */ IS_DIGIT(*__CPROVER_old(*theString)) ==> SOFF(*theString) > SOFF(__CPROVER_old(*theString)))
+__CPROVER_ensures(/* consumeNumbers skips ASCII digits only (ghost witness): the Number grammar has no other digits */ (g_cw >= SOFF(__CPROVER_old(*theString)) && g_cw < SOFF(*theString)) ==> IS_DIGIT(g_str[g_cw]))
+'''
+CN_LOOP = r'''
+__CPROVER_assigns(*theString)
+__CPROVER_loop_invariant(IN_STR(*theString) && SOFF(*theString) >= SOFF(__CPROVER_loop_entry(*theString)))
+__CPROVER_loop_invariant(/* everything skipped so far is an ASCII digit */ (g_cw >= SOFF(__CPROVER_loop_entry(*theString)) && g_cw < SOFF(*theString)) ==> IS_DIGIT(g_str[g_cw]))
+__CPROVER_decreases(g_n - SOFF(*theString))
 '''
 CURSOR_LOOP = r'''
 __CPROVER_assigns(*theString)
@@ -65,14 +72,11 @@ TEMPLATE = PRELUDE + r'''
 /* isXMLDigit (XML 1.0 production [88] Digit): the ASCII digits and many more (Arabic-Indic, Devanagari ...); the XPath Number grammar has ASCII digits only */
 bool isXMLDigit(XalanDOMChar c) __CPROVER_requires(1) __CPROVER_assigns()
 __CPROVER_ensures((__CPROVER_return_value == true || __CPROVER_return_value == false) && (IS_DIGIT(c) ==> __CPROVER_return_value == true) && (c < 0x80 && !IS_DIGIT(c) ==> __CPROVER_return_value == false)) ;
-#ifdef XV_BOUNDED
-bool isXMLDigit_body_unused;
-#endif
 @@FN consumeNumbers@@
 @@FN doValidate@@
 
 void h_consumeWhitespace(void) { const XalanDOMChar** p; size_t n; g_n = n; const XalanDOMChar* s; g_str = s; consumeWhitespace(p); }
-void h_consumeNumbers(void) { const XalanDOMChar** p; size_t n; g_n = n; const XalanDOMChar* s; g_str = s; consumeNumbers(p); }
+void h_consumeNumbers(void) { const XalanDOMChar** p; size_t n, w; g_cw = w; g_n = n; const XalanDOMChar* s; g_str = s; consumeNumbers(p); }
 void h_doValidate(void) { const XalanDOMChar* s; bool* f; size_t n; g_n = n; const XalanDOMChar* gs; g_str = gs; doValidate(s, f); }
 
 /* ---- bounded functional check against the grammar of the property statement:
@@ -95,6 +99,7 @@ static bool spec_number(const XalanDOMChar* s, bool* point)
 /* body for isXMLWhitespace in the bounded job (its contract is proved from the real table in c04_chartables) */
 #ifdef XV_BOUNDED
 bool isXMLWhitespace(XalanDOMChar c) { return XV_IS_WS(c); }
+bool isXMLDigit(XalanDOMChar c) { return IS_DIGIT(c) || (c >= 0x0660 && c <= 0x0669) || (c >= 0x0966 && c <= 0x096F); }   /* a part of the XML Digit class; only reachable if the code calls it */
 #endif
 void h_doValidate_bounded(void)
 {
@@ -124,7 +129,7 @@ UNIT = Unit(
         Fn(DS, r'^consumeNumbers\(', 'consumeNumbers',
            'static void consumeNumbers(const XalanDOMChar** theString)',
            head_expect=r'^inline static void consumeNumbers\(const XalanDOMChar\*& theString\)$',
-           rules=['SCOPE'] + REF, contract=CN_CONTRACT, loops={0: CURSOR_LOOP}, nloops=1),
+           rules=['SCOPE'] + REF, contract=CN_CONTRACT, loops={0: CN_LOOP}, nloops=1),
         Fn(DS, r'^doValidate\(\s*const XalanDOMChar\*\s+theString,\s*bool&', 'doValidate',
            'static bool doValidate(const XalanDOMChar* theString, bool* fGotDecimalPoint)',
            head_expect=r'^static bool doValidate\( const XalanDOMChar\* theString, bool& fGotDecimalPoint\)$',
